@@ -119,7 +119,7 @@ func (p C14) Run(c *sim.Ctx, t *sim.Tape) sim.RunResult {
 
 	do := func(who *c03User, o fsx.Op) (out e1Outcome, stop bool) {
 		if filtered && w.avoided(c, "C14", o) {
-			o = fsx.Op{K: "Lstat", P: o.P}
+			o = insteadOf(o)
 		}
 
 		out = w.step(c, "C14", i, o, who.env, who.uid, who.gid, who.umask)
@@ -580,7 +580,7 @@ func (p C14) Run(c *sim.Ctx, t *sim.Tape) sim.RunResult {
 
 			if o.P == "/a" || o.P == "/ab" || o.P == "/d" {
 				if o.K != "Chmod" {
-					o = fsx.Op{K: "Lstat", P: o.P}
+					o = insteadOf(o)
 				}
 			}
 
